@@ -61,6 +61,54 @@ def _list_ends(expr, grid):
     return (i, j)
 
 
+def _step_is_consecutive_difference(e, grid):
+    """True: an element / the minimum / the only distinct value of np.diff(grid), or grid[k+1] - grid[k];
+    False: grid[a] - grid[b] of non-neighbours; None: not read."""
+    for _h in range(4):
+        if isinstance(e, ast.Call) and isinstance(e.func, (ast.Name, ast.Attribute)) and \
+                (e.func.id if isinstance(e.func, ast.Name) else e.func.attr) in ("int", "float", "int64", "float64", "asarray", "array", "item") and (e.args or isinstance(e.func, ast.Attribute)):
+            e = e.args[0] if e.args else e.func.value
+        else:
+            break
+
+    def is_diff_seq(x, depth=0):
+        """np.diff(grid), possibly under sorted / set / list / tuple / np.unique / np.array"""
+        if depth > 5:
+            return False
+        if isinstance(x, ast.Call):
+            fn = x.func.id if isinstance(x.func, ast.Name) else (x.func.attr if isinstance(x.func, ast.Attribute) else "")
+            if fn == "diff" and x.args and isinstance(x.args[0], ast.Name) and x.args[0].id == grid:
+                return True
+            if fn in ("sorted", "set", "list", "tuple", "unique", "array", "asarray", "frozenset") and x.args:
+                return is_diff_seq(x.args[0], depth + 1)
+        return False
+
+    if isinstance(e, ast.Subscript) and not isinstance(e.slice, ast.Slice) and is_diff_seq(e.value):
+        return True
+    if isinstance(e, ast.Call):
+        fn = e.func.id if isinstance(e.func, ast.Name) else (e.func.attr if isinstance(e.func, ast.Attribute) else "")
+        if fn in ("min", "max", "amin", "amax"):
+            if e.args and is_diff_seq(e.args[0]):
+                return True
+            if not e.args and isinstance(e.func, ast.Attribute) and is_diff_seq(e.func.value):
+                return True
+        if fn == "pop" and isinstance(e.func, ast.Attribute) and is_diff_seq(e.func.value):
+            return True
+    if isinstance(e, ast.BinOp) and isinstance(e.op, ast.Sub):
+        def idx(x):
+            if isinstance(x, ast.Subscript) and isinstance(x.value, ast.Name) and x.value.id == grid:
+                try:
+                    c = py_poly(x.slice).const_or_none()
+                except NotAlgebraic:
+                    return None
+                return int(c) if c is not None and c == int(c) else None
+            return None
+        a, b = idx(e.left), idx(e.right)
+        if a is not None and b is not None and (a >= 0) == (b >= 0):
+            return a - b == 1
+    return None
+
+
 def _validity_intervals(ctx, chk, wl, wflow, mod, gridp, closed, base_name, colname):
     """starts = [first grid instant] ++ [sample after each gap]; ends = [sample before each gap] ++ [last grid
     instant]; the k-th pair is labelled k (from 1); a gap is a source step larger than the smallest."""
@@ -312,9 +360,13 @@ def run(ctx, chk, tier="quick"):
         probe = [n for n in ast.walk(app[0]) if isinstance(n, ast.Name) and n.id == step_name][0]
         sv = gflow.expand(probe, keep={grid_name})
         txt = ast.unparse(sv)
-        ok = "diff(%s)" % grid_name in txt.replace("np.", "").replace("numpy.", "") and ("set(" in txt or "unique(" in txt or "min(" in txt)
-        chk.ob("C10.O1", ok, where_of(gt, enclosing_stmt(probe)), "step = %s" % txt[:90], "the (unique) difference between consecutive grid times",
-               key="populate_grid_time|step", why="the step defines the end of every rainfall and ET interval")
+        verdict = _step_is_consecutive_difference(sv, grid_name)
+        if verdict is None:
+            chk.indeterminate("C10.O1", where_of(gt, enclosing_stmt(probe)), "how the step (%s) is taken from the grid times is not read" % txt[:80])
+        else:
+            chk.ob("C10.O1", verdict, where_of(gt, enclosing_stmt(probe)), "step = %s" % txt[:90],
+                   "a difference between consecutive grid times (that all of them are equal is the uniformity guard's obligation, C11.O4)",
+                   key="populate_grid_time|step", why="the step defines the end of every rainfall and ET interval")
         # stored in time_grid
         for s in ctx.sites_in(gt):
             if s.stmt is not None and s.stmt.kind == "insert" and s.stmt.table == "time_grid":
